@@ -85,4 +85,33 @@ theorem all_put {P : κ → ν → Prop} {m : List (κ × ν)} (h : ∀ p ∈ m,
   · subst e; exact hv
   · exact h p hm
 
+theorem get_none_not_key {m : List (κ × ν)} {k : κ} (h : get m k = none) : k ∉ keys m := by
+  induction m with
+  | nil => simp [keys]
+  | cons q m ih =>
+    obtain ⟨k', v⟩ := q
+    simp only [get] at h
+    split at h
+    · cases h
+    · rename_i hne
+      simp only [keys, List.map_cons, List.mem_cons, not_or]
+      exact ⟨hne, ih h⟩
+
+theorem get_some_key {m : List (κ × ν)} {k : κ} {v : ν} (h : get m k = some v) : k ∈ keys m :=
+  List.mem_map.mpr ⟨(k, v), get_some_mem h, rfl⟩
+
+theorem keys_del_sublist (m : List (κ × ν)) (k : κ) : (keys (del m k)).Sublist (keys m) := by
+  unfold keys del
+  exact List.Sublist.map _ List.filter_sublist
+
+theorem mem_keys_del {m : List (κ × ν)} {k x : κ} : x ∈ keys (del m k) ↔ x ∈ keys m ∧ x ≠ k := by
+  unfold keys
+  simp only [List.mem_map, mem_del]
+  constructor
+  · rintro ⟨p, ⟨hp, hne⟩, e⟩; subst e; exact ⟨⟨p, hp, rfl⟩, hne⟩
+  · rintro ⟨⟨p, hp, e⟩, hne⟩; subst e; exact ⟨p, ⟨hp, hne⟩, rfl⟩
+
+omit [DecidableEq κ] in
+theorem keys_length (m : List (κ × ν)) : (keys m).length = m.length := by simp [keys]
+
 end KrakenModel.KV
